@@ -46,6 +46,15 @@ const WINDOW: (u64, u64) = (2, 4);
 const GCELLS: u64 = 32;
 const SIGABRT: i32 = 6;
 
+static T_INSPECT_US: std::sync::atomic::AtomicU64 = std::sync::atomic::AtomicU64::new(0);
+static T_START_US: std::sync::atomic::AtomicU64 = std::sync::atomic::AtomicU64::new(0);
+static T_REDELIVER_US: std::sync::atomic::AtomicU64 = std::sync::atomic::AtomicU64::new(0);
+static T_STOP_US: std::sync::atomic::AtomicU64 = std::sync::atomic::AtomicU64::new(0);
+
+fn tick(acc: &std::sync::atomic::AtomicU64, t: Instant) {
+    acc.fetch_add(t.elapsed().as_micros() as u64, std::sync::atomic::Ordering::Relaxed);
+}
+
 fn node_cfg(epoch_len: u64) -> NodeCfg {
     NodeCfg { epoch_len, window: WINDOW, genesis_cells: GCELLS, maturity_epochs: 0, with_pool: false, tx_pool: None }
 }
@@ -258,7 +267,7 @@ fn read_blocks(path: &Path, consensus: &ckb_chain_spec::consensus::Consensus) ->
         let hash = Byte32::from_slice(&buf[p..p + 32]).unwrap();
         p += 32;
         let len = rd_u32(&mut p);
-        let block = packed::Block::from_slice(&buf[p..p + len]).expect("block bytes").into_view_without_reset_header();
+        let block = packed::Block::from_compatible_slice(&buf[p..p + len]).expect("block bytes").into_view_without_reset_header();
         p += len;
         assert_eq!(block.hash(), hash, "child: block {id} hash differs from the parent's");
         v.push(Blk { id, parent: 0, hash, num: block.number(), epoch: block.epoch().number(), work: 0, kind: Kind::Valid, block: Arc::new(block), tx: None });
@@ -504,11 +513,18 @@ impl<'a> Runner<'a> {
     fn deliver(&mut self, id: usize) -> Result<Delivery, String> {
         let first = self.log.lock().unwrap().events.len();
         let lb = self.lonely(id);
+        let commits_before = ckb_db::verif_crash::count();
         if !self.node.controller().verif_process_lonely_block_sync(lb) {
             return Err("the chain service has gone".into());
         }
+        // No commit at all = `asynchronous_process_block` returned early (genesis, non-contextual
+        // failure): nothing was queued and `search_orphan_leaders` did not run. The fence would run it
+        // (it is a delivery), which the protocol does not have at this point; it is not needed either.
+        let early_return = ckb_db::verif_crash::count() == commits_before;
         if self.fenced {
-            self.settle()?;
+            if !early_return {
+                self.settle()?;
+            }
         } else {
             self.wait_counting()?;
         }
@@ -1177,6 +1193,7 @@ struct Crashed {
 
 /// (1) open the crashed database without services, evaluate the consistency oracle
 fn inspect_crashed(out: &mut Out, h: &Hist, builder: &mut ChainBuilder, node_dir: &Path, what: &str) -> Option<Crashed> {
+    let t_inspect = Instant::now();
     let path = node_dir.join("db");
     let db = match std::panic::catch_unwind(std::panic::AssertUnwindSafe(|| ChainDB::new(RocksDB::open_in(&path, COLUMNS), Default::default()))) {
         Ok(db) => db,
@@ -1187,6 +1204,7 @@ fn inspect_crashed(out: &mut Out, h: &Hist, builder: &mut ChainBuilder, node_dir
     };
     let r = std::panic::catch_unwind(std::panic::AssertUnwindSafe(|| check_store(out, &db, h, builder, what)));
     drop(db);
+    tick(&T_INSPECT_US, t_inspect);
     match r {
         Ok((view, unext)) => Some(Crashed { view, unext }),
         Err(_) => {
@@ -1219,8 +1237,11 @@ fn start_node(out: &mut Out, h: &Hist, node_dir: &Path, what: &str) -> Option<No
 /// Steps (3)-(5): restart, fence, `restart` op, `deliver <tip>` op, then the `post` deliveries.
 /// `expect` = (td, unique head) the node must converge to after `post` (None: not checked).
 /// Returns the final (tip, td).
-fn restart_and_redeliver(out: &mut Out, h: &Hist, node_dir: &Path, crashed: &Crashed, post: &[usize], emit: bool, expect: Option<(u128, Option<usize>)>, what: &str) -> Option<(Option<usize>, u128)> {
+fn restart_and_redeliver(out: &mut Out, h: &Hist, node_dir: &Path, crashed: &Crashed, post: &[usize], emit: bool, tip_op: bool, expect: Option<(u128, Option<usize>)>, what: &str) -> Option<(Option<usize>, u128)> {
+    let t_start = Instant::now();
     let node = start_node(out, h, node_dir, what)?;
+    tick(&T_START_US, t_start);
+    let t_red = Instant::now();
     let mut result = None;
     let mut dead = false;
     {
@@ -1254,7 +1275,7 @@ fn restart_and_redeliver(out: &mut Out, h: &Hist, node_dir: &Path, crashed: &Cra
             }
             // the tip fence as an ordinary op, then the history again
             let mut todo: Vec<usize> = vec![];
-            if emit {
+            if emit && tip_op {
                 todo.push(v.tip.unwrap_or(0));
             }
             todo.extend(post.iter().copied());
@@ -1299,7 +1320,10 @@ fn restart_and_redeliver(out: &mut Out, h: &Hist, node_dir: &Path, crashed: &Cra
         std::mem::forget(node);
         return None;
     }
+    tick(&T_REDELIVER_US, t_red);
+    let t_stop = Instant::now();
     node.stop();
+    tick(&T_STOP_US, t_stop);
     result
 }
 
@@ -1374,12 +1398,71 @@ fn classify(prev: &StateView, next: &StateView) -> &'static str {
     }
 }
 
+/// Step C: crash n1 on a fresh directory, a second run on the same directory (re-delivering everything)
+/// crashed at ITS n2-th commit, then recovery and full re-delivery; only the final td is compared.
+fn multi_case(out: &mut Out, h: &Hist, builder: &mut ChainBuilder, env: &ChildEnv, base: &Path, tag: &str, order: &[usize], n1: u64, n2: u64, expect: Option<(u128, Option<usize>)>, stderr: &Path, hname: &str, begin: bool) {
+    let dir = base.join(tag);
+    let _ = std::fs::remove_dir_all(&dir);
+    let j1 = ChildJob { node_dir: dir.clone(), log: base.join(format!("{tag}-1.log")), stderr: stderr.to_path_buf(), ids: order.to_vec(), crash: Some(format!("{n1}:before")), fenced: false };
+    let j2 = ChildJob { node_dir: dir.clone(), log: base.join(format!("{tag}-2.log")), stderr: stderr.to_path_buf(), ids: order.to_vec(), crash: Some(format!("{n2}:before")), fenced: true };
+    let _ = std::fs::remove_file(&j1.log);
+    let _ = std::fs::remove_file(&j2.log);
+    if begin {
+        out.begin_case(&format!("multi el={} n1={} n2={} {}", h.el, n1, n2, hname));
+        emit_blks(out, h);
+    }
+    let what = format!("{hname} repeated crashes n1={n1} n2={n2}");
+    let e1 = run_child(env, &j1);
+    out.count("child-run");
+    let mut ok = e1 == ChildExit::Signal(SIGABRT) || e1 == ChildExit::Code(0);
+    if !ok {
+        out.oracle_fail("child-failed", &format!("{what}: first run: {}", describe_exit(&e1, &j1)));
+    }
+    if ok {
+        if inspect_crashed(out, h, builder, &dir, &format!("{what} (after crash 1)")).is_none() {
+            ok = false;
+        }
+    }
+    if ok {
+        let e2 = run_child(env, &j2);
+        out.count("child-run");
+        let l2 = parse_log(&j2.log);
+        match e2 {
+            ChildExit::Signal(SIGABRT) => out.count("second-crash"),
+            ChildExit::Code(0) => out.count("second-run-completed"),
+            _ => {
+                let class = if l2.hang.is_some() || e2 == ChildExit::Timeout { "hang" } else { "child-failed" };
+                out.oracle_fail(class, &format!("{what}: second run: {} log-hang={:?}", describe_exit(&e2, &j2), l2.hang));
+                ok = false;
+            }
+        }
+    }
+    let mut answer = "td=?".to_string();
+    if ok {
+        if let Some(crashed) = inspect_crashed(out, h, builder, &dir, &format!("{what} (after crash 2)")) {
+            out.count("crash-point");
+            if !crashed.unext.is_empty() {
+                out.nontrivial(h.fingerprint(order, &[n1, n2, 7]));
+            }
+            if let Some((_, td)) = restart_and_redeliver(out, h, &dir, &crashed, order, false, false, expect, &what) {
+                answer = format!("td={td}");
+            }
+        }
+    }
+    out.op(&format!("burst {}", show_ids(order)), &answer);
+    let _ = std::fs::remove_dir_all(&dir);
+    let _ = std::fs::remove_file(&j1.log);
+    let _ = std::fs::remove_file(&j2.log);
+}
+
 fn one_history(out: &mut Out, opts: &Opts, rng: &mut Rng, base: &Path, hno: u64, exe: &Path) {
-    let bdir = base.join(format!("b{hno}"));
+    let mut bdir = base.join(format!("b{hno}"));
     let thorough = opts.thorough();
     // a history whose reference run contains a reorg or a rejected block, if one of 3 attempts has one
     let mut chosen = None;
     for attempt in 0..3 {
+        drop(chosen.take());
+        bdir = base.join(format!("b{hno}-{attempt}"));
         let _ = std::fs::remove_dir_all(&bdir);
         let (h, builder, order) = build_history(rng, opts, &bdir);
         let blocks_file = base.join(format!("h{hno}.blocks"));
@@ -1518,7 +1601,7 @@ fn one_history(out: &mut Out, opts: &Opts, rng: &mut Rng, base: &Path, hno: u64,
         if !crashed.unext.is_empty() {
             out.count("crash-with-unverified-stored");
         }
-        restart_and_redeliver(out, &h, &job.node_dir, &crashed, &order, true, expect, &what);
+        restart_and_redeliver(out, &h, &job.node_dir, &crashed, &order, true, true, expect, &what);
         cleanup();
     });
 
@@ -1527,55 +1610,7 @@ fn one_history(out: &mut Out, opts: &Opts, rng: &mut Rng, base: &Path, hno: u64,
         for pair in 0..3u64 {
             let n1 = rng.range(rr.k0 + 1, rr.total);
             let n2 = rng.range(1, span + 4);
-            let tag = format!("h{hno}-m{pair}");
-            let dir = base.join(&tag);
-            let _ = std::fs::remove_dir_all(&dir);
-            let j1 = ChildJob { node_dir: dir.clone(), log: base.join(format!("{tag}-1.log")), stderr: opts.out.join("child-stderr.txt"), ids: order.clone(), crash: Some(format!("{n1}:before")), fenced: false };
-            let j2 = ChildJob { node_dir: dir.clone(), log: base.join(format!("{tag}-2.log")), stderr: opts.out.join("child-stderr.txt"), ids: order.clone(), crash: Some(format!("{n2}:before")), fenced: true };
-            out.begin_case(&format!("multi el={} n1={} n2={} hist={}", h.el, n1, n2, hno));
-            emit_blks(out, &h);
-            let what = format!("hist={hno} repeated crashes n1={n1} n2={n2}");
-            let e1 = run_child(&env, &j1);
-            out.count("child-run");
-            let mut ok = e1 == ChildExit::Signal(SIGABRT);
-            if !ok {
-                out.oracle_fail("child-failed", &format!("{what}: first run: {}", describe_exit(&e1, &j1)));
-            }
-            if ok {
-                if inspect_crashed(out, &h, &mut builder, &dir, &format!("{what} (after crash 1)")).is_none() {
-                    ok = false;
-                }
-            }
-            if ok {
-                let e2 = run_child(&env, &j2);
-                out.count("child-run");
-                let l2 = parse_log(&j2.log);
-                match e2 {
-                    ChildExit::Signal(SIGABRT) => out.count("second-crash"),
-                    ChildExit::Code(0) => out.count("second-run-completed"),
-                    _ => {
-                        let class = if l2.hang.is_some() || e2 == ChildExit::Timeout { "hang" } else { "child-failed" };
-                        out.oracle_fail(class, &format!("{what}: second run: {} log-hang={:?}", describe_exit(&e2, &j2), l2.hang));
-                        ok = false;
-                    }
-                }
-            }
-            let mut answer = "td=?".to_string();
-            if ok {
-                if let Some(crashed) = inspect_crashed(out, &h, &mut builder, &dir, &format!("{what} (after crash 2)")) {
-                    out.count("crash-point");
-                    if !crashed.unext.is_empty() {
-                        out.nontrivial(h.fingerprint(&order, &[n1, n2, 7]));
-                    }
-                    if let Some((_, td)) = restart_and_redeliver(out, &h, &dir, &crashed, &order, false, expect, &what) {
-                        answer = format!("td={td}");
-                    }
-                }
-            }
-            out.op(&format!("burst {}", show_ids(&order)), &answer);
-            let _ = std::fs::remove_dir_all(&dir);
-            let _ = std::fs::remove_file(&j1.log);
-            let _ = std::fs::remove_file(&j2.log);
+            multi_case(out, &h, &mut builder, &env, base, &format!("h{hno}-m{pair}"), &order, n1, n2, expect, &opts.out.join("child-stderr.txt"), &format!("hist={hno}"), true);
         }
     }
     let _ = std::fs::remove_file(&env.blocks_file);
@@ -1595,4 +1630,235 @@ fn generate(out: &mut Out, opts: &Opts, base: &Path) {
     }
 }
 
-// @@NEXT@@
+// ------------------------------------------------------------------------------------------------
+// replay of one recorded case
+// ------------------------------------------------------------------------------------------------
+
+fn label_num(tokens: &[&str], key: &str) -> Option<u64> {
+    tokens.iter().find_map(|t| t.strip_prefix(key).and_then(|v| v.parse::<u64>().ok()))
+}
+
+fn fresh_job(base: &Path, tag: &str, stderr: &Path, ids: &[usize], crash: Option<String>) -> ChildJob {
+    let job = ChildJob { node_dir: base.join(tag), log: base.join(format!("{tag}.log")), stderr: stderr.to_path_buf(), ids: ids.to_vec(), crash, fenced: false };
+    let _ = std::fs::remove_dir_all(&job.node_dir);
+    let _ = std::fs::remove_file(&job.log);
+    job
+}
+
+fn replay_case(out: &mut Out, opts: &Opts, label: &[&str], lines: &[String], base: &Path, cno: usize) {
+    let el = label_num(label, "el=").unwrap_or(4).clamp(1, 1000);
+    let cfg = node_cfg(el);
+    let consensus = make_consensus(&cfg);
+    out.begin_case(&label.join(" "));
+    let bdir = base.join(format!("rb{cno}"));
+    let mut builder = ChainBuilder::new(consensus.clone(), &bdir);
+    builder.max_branch_stores = 12;
+    let mut blks: Vec<Blk> = vec![];
+    let mut ops: Vec<Vec<String>> = vec![];
+    for line in lines {
+        let t: Vec<&str> = line.split_whitespace().collect();
+        if t[0] == "blk" {
+            assert!(ops.is_empty(), "blk lines must precede the other ops: {line}");
+            assert_eq!(t.len(), 8, "bad blk line {line}");
+            let id: usize = t[1].parse().expect("blk id");
+            let parent: usize = t[2].parse().expect("blk parent");
+            assert_eq!(id, blks.len(), "blk ids must be 0,1,2,.. in order: {line}");
+            let b = if id == 0 {
+                genesis_blk(&consensus)
+            } else {
+                assert!(parent < id, "blk {id}: parent {parent} must be smaller");
+                let p = blks[parent].clone();
+                let g = if p.id != 0 { Some(blks[p.parent].clone()) } else { None };
+                build_blk(&mut builder, id, &p, g.as_ref(), Kind::from_flags(t[6] == "1", t[7] == "1"))
+            };
+            out.op(&blk_line(&b), "ok");
+            blks.push(b);
+        } else {
+            ops.push(t.iter().map(|x| x.to_string()).collect());
+        }
+    }
+    assert!(!blks.is_empty(), "no blk lines");
+    let by_hash = hash_map(&blks);
+    let h = Hist { el, cfg, consensus, blks, by_hash };
+    let id_of = |s: &str| -> usize {
+        let id: usize = s.parse().unwrap_or_else(|_| panic!("bad id {s}"));
+        assert!(id < h.blks.len(), "unknown block id {id}");
+        id
+    };
+    let blocks_file = base.join(format!("r{cno}.blocks"));
+    write_blocks(&blocks_file, &h.blks);
+    let env = ChildEnv { exe: std::env::current_exe().expect("current_exe"), out: opts.out.clone(), blocks_file, el };
+    let stderr = opts.out.join("child-stderr.txt");
+    let ci = ops.iter().position(|o| o[0] == "crashdeliver");
+    let prefix_end = ci.unwrap_or(ops.len());
+    let mut prefix_ids = vec![];
+    for o in &ops[..prefix_end] {
+        match o[0].as_str() {
+            "deliver" => prefix_ids.push(id_of(&o[1])),
+            "commits" => {}
+            "burst" => {}
+            _ => panic!("unsupported replay op before a crash: {}", o.join(" ")),
+        }
+    }
+    // answers of the ops before the crash from a child's log
+    let emit_prefix = |out: &mut Out, log: &ChildLog| {
+        let mut di = 0usize;
+        let k0 = log.start.unwrap_or(0);
+        let mut cur = k0;
+        for o in &ops[..prefix_end] {
+            match o[0].as_str() {
+                "deliver" => {
+                    if let Some(d) = log.dones.get(di) {
+                        out.op(&format!("deliver {} {}", d.id, d.hint), &d.line);
+                        cur = d.count;
+                    }
+                    di += 1;
+                }
+                "commits" => out.op("commits", &format!("{}", cur - k0)),
+                _ => {}
+            }
+        }
+    };
+    if let Some(bi) = ops.iter().position(|o| o[0] == "burst") {
+        assert!(ci.is_none() && ops.len() == 1, "a burst case has exactly one op");
+        let ids: Vec<usize> = parse_ids(&ops[bi][1]).into_iter().map(|i| id_of(&i.to_string())).collect();
+        let delivered: HashSet<usize> = ids.iter().copied().collect();
+        let (btd, bhead) = h.best(&delivered);
+        match (label_num(label, "n1="), label_num(label, "n2=")) {
+            (Some(n1), Some(n2)) => {
+                multi_case(out, &h, &mut builder, &env, base, &format!("r{cno}-m"), &ids, n1, n2, Some((btd, bhead)), &stderr, "replay", false);
+            }
+            _ => {
+                let job = fresh_job(base, &format!("r{cno}-ref"), &stderr, &ids, None);
+                let exit = run_child(&env, &job);
+                let log = parse_log(&job.log);
+                if exit != ChildExit::Code(0) {
+                    out.oracle_fail(if log.hang.is_some() { "hang" } else { "child-failed" }, &describe_exit(&exit, &job));
+                }
+                let td = log.dones.last().map(|d| td_of(&d.line)).unwrap_or(0);
+                out.op(&format!("burst {}", show_ids(&ids)), &format!("td={td}"));
+                let _ = std::fs::remove_dir_all(&job.node_dir);
+            }
+        }
+    } else if ci.is_none() {
+        let job = fresh_job(base, &format!("r{cno}-ref"), &stderr, &prefix_ids, None);
+        let exit = run_child(&env, &job);
+        let log = parse_log(&job.log);
+        if exit != ChildExit::Code(0) {
+            out.oracle_fail(if log.hang.is_some() || exit == ChildExit::Timeout { "hang" } else { "child-failed" }, &describe_exit(&exit, &job));
+        }
+        emit_prefix(out, &log);
+        let _ = std::fs::remove_dir_all(&job.node_dir);
+    } else {
+        let ci = ci.unwrap();
+        let cid = id_of(&ops[ci][1]);
+        let k: u64 = ops[ci][2].parse().expect("crashdeliver k");
+        assert!(k >= 1, "crashdeliver: k >= 1");
+        let mut ids = prefix_ids.clone();
+        ids.push(cid);
+        // the commit counters of this prefix from a crash-free run
+        let job = fresh_job(base, &format!("r{cno}-ref"), &stderr, &ids, None);
+        let exit = run_child(&env, &job);
+        let rlog = parse_log(&job.log);
+        let _ = std::fs::remove_dir_all(&job.node_dir);
+        if exit != ChildExit::Code(0) || rlog.dones.len() != ids.len() {
+            out.oracle_fail(if rlog.hang.is_some() || exit == ChildExit::Timeout { "hang" } else { "child-failed" }, &format!("replay: crash-free run of the prefix: {}", describe_exit(&exit, &job)));
+            emit_prefix(out, &rlog);
+            return;
+        }
+        let cend = rlog.dones.last().unwrap().count;
+        let c0 = if ids.len() >= 2 { rlog.dones[ids.len() - 2].count } else { rlog.start.unwrap_or(0) };
+        let commits = cend - c0;
+        assert!(k <= commits + 1, "crashdeliver {cid} {k}: the delivery performs only {commits} commits");
+        let (run_ids, crash) = if k <= commits {
+            (ids.clone(), Some(format!("{}:before", c0 + k)))
+        } else if commits >= 1 {
+            (ids.clone(), Some(format!("{}:after", c0 + k - 1)))
+        } else {
+            // a delivery without any commit (non-contextually invalid block): the state before it
+            (prefix_ids.clone(), None)
+        };
+        let job = fresh_job(base, &format!("r{cno}-crash"), &stderr, &run_ids, crash.clone());
+        let exit = run_child(&env, &job);
+        let log = parse_log(&job.log);
+        let what = format!("replay crash {:?} in delivery of {cid} (k={k})", crash);
+        emit_prefix(out, &log);
+        let expected_exit = if crash.is_some() { ChildExit::Signal(SIGABRT) } else { ChildExit::Code(0) };
+        if exit != expected_exit {
+            out.oracle_fail(if log.hang.is_some() || exit == ChildExit::Timeout { "hang" } else { "child-failed" }, &format!("{what}: {}", describe_exit(&exit, &job)));
+            let _ = std::fs::remove_dir_all(&job.node_dir);
+            return;
+        }
+        out.count("crash-point");
+        let Some(crashed) = inspect_crashed(out, &h, &mut builder, &job.node_dir, &what) else {
+            out.op(&format!("crashdeliver {cid} {k}"), "unreadable");
+            let _ = std::fs::remove_dir_all(&job.node_dir);
+            return;
+        };
+        out.op(&format!("crashdeliver {cid} {k}"), &fmt_line(&[], &crashed.view));
+        if !crashed.unext.is_empty() {
+            out.nontrivial(h.fingerprint(&ids, &[k]));
+        }
+        let rest = &ops[ci + 1..];
+        if !rest.is_empty() {
+            assert_eq!(rest[0][0], "restart", "after crashdeliver only `restart` followed by `deliver` ops can be replayed");
+            let mut post = vec![];
+            for o in &rest[1..] {
+                assert_eq!(o[0], "deliver", "after restart only `deliver` ops can be replayed: {}", o.join(" "));
+                post.push(id_of(&o[1]));
+            }
+            let pre: HashSet<usize> = ids.iter().copied().collect();
+            let posts: HashSet<usize> = post.iter().copied().filter(|i| *i != 0).collect();
+            let expect = if pre.is_subset(&posts) { Some(h.best(&posts)) } else { None };
+            restart_and_redeliver(out, &h, &job.node_dir, &crashed, &post, true, false, expect, &what);
+        }
+        let _ = std::fs::remove_dir_all(&job.node_dir);
+        let _ = std::fs::remove_file(&job.log);
+    }
+    let _ = std::fs::remove_file(&env.blocks_file);
+    drop(builder);
+    let _ = std::fs::remove_dir_all(&bdir);
+}
+
+fn replay(out: &mut Out, opts: &Opts, ops: &[String], base: &Path) {
+    let mut cases: Vec<(Vec<String>, Vec<String>)> = vec![];
+    for line in ops {
+        let t: Vec<&str> = line.split_whitespace().collect();
+        if t.is_empty() {
+            continue;
+        }
+        if t[0] == "case" {
+            cases.push((t[2.min(t.len())..].iter().map(|x| x.to_string()).collect(), vec![]));
+        } else {
+            if cases.is_empty() {
+                cases.push((vec!["replay".to_string()], vec![]));
+            }
+            cases.last_mut().unwrap().1.push(line.clone());
+        }
+    }
+    for (i, (label, lines)) in cases.iter().enumerate() {
+        let l: Vec<&str> = label.iter().map(|x| x.as_str()).collect();
+        replay_case(out, opts, &l, lines, base, i);
+    }
+}
+
+pub fn run(opts: &Opts) {
+    if opts.extra.first().map(|s| s == "child").unwrap_or(false) {
+        child_main(opts);
+    }
+    let t0 = Instant::now();
+    let mut out = Out::new(&opts.out);
+    let _ = std::fs::remove_file(opts.out.join("child-stderr.txt"));
+    let base = scratch_dir(&opts.out, "c08");
+    if let Some(p) = &opts.replay {
+        let ops = read_replay_ops(p);
+        replay(&mut out, opts, &ops, &base);
+    } else {
+        generate(&mut out, opts, &base);
+    }
+    let _ = std::fs::remove_dir_all(&base);
+    out.extra.insert("wall_s".into(), serde_json::json!(t0.elapsed().as_secs_f64()));
+    let secs = |a: &std::sync::atomic::AtomicU64| a.load(std::sync::atomic::Ordering::Relaxed) as f64 / 1e6;
+    out.extra.insert("parent_time_s".into(), serde_json::json!({"inspect_crashed_db": secs(&T_INSPECT_US), "node_start": secs(&T_START_US), "fence_and_redeliver": secs(&T_REDELIVER_US), "node_stop": secs(&T_STOP_US)}));
+    out.finish("crash point counted when the crashed store held at least one block stored without ext, or the crash fell inside a delivery that reorganises the chain in the crash-free run (fingerprint: tree, delivery order, commit index, mode)");
+}
